@@ -323,6 +323,9 @@ def truth(ctx, st, x):
 # ---------------------------------------------------------------------------
 # the interpreter
 
+UNITS_READ = set()      # every function body executed in this process since the last reset (cache validation, pyvc/driver.py)
+
+
 class Interp:
     def __init__(self, ctx):
         self.ctx = ctx
@@ -389,6 +392,7 @@ class Interp:
     # ---- running a unit ------------------------------------------------------
     def run_unit(self, unit, st, args, kwargs):
         """Bind parameters and execute the body.  Returns [(state, ctl)] with ctl in return/raise."""
+        UNITS_READ.add(unit.key)
         st = st.fork()
         saved = (st.env, st.unit, st.closure)
         st.env = {}
